@@ -15,6 +15,7 @@
 package stat
 
 import (
+	"math"
 	"sync/atomic"
 
 	"github.com/alibaba/sentinel-golang/core/base"
@@ -73,13 +74,15 @@ func (n *BaseStatNode) UpdateConcurrency(concurrency int32) {
 }
 
 func (n *BaseStatNode) AvgRT() float64 {
-	complete := n.metric.GetSum(base.MetricEventComplete)
-	if complete <= 0 {
+	// divide as floats: the integer quotient drops the fraction (43ms/4 = 10, not 10.75), and an
+	// average-RT system rule with a trigger in between was never reached.
+	// Both sums come from one reading of the clock (see SlidingWindowMetric.AvgRT).
+	avg := n.metric.AvgRT()
+	if math.IsNaN(avg) || math.IsInf(avg, 0) {
+		// no completion in the window
 		return float64(0.0)
 	}
-	// divide as floats: the integer quotient drops the fraction (43ms/4 = 10, not 10.75), and an
-	// average-RT system rule with a trigger in between was never reached
-	return float64(n.metric.GetSum(base.MetricEventRt)) / float64(complete)
+	return avg
 }
 
 func (n *BaseStatNode) MinRT() float64 {
